@@ -90,7 +90,12 @@ func (watcher *RequestWatcher) StopAll() {
 	defer watcher.requestsMapMutex.RUnlock()
 
 	for _, request := range watcher.requests {
-		request.SetProcessedTimeout()
+		// A request that is already processed (its removal from the watch list is
+		// asynchronous) or is being processed has had, or is about to get, its one
+		// signal: only requests still waiting are released here.
+		if request.StartProcessing() {
+			request.SetProcessedTimeout()
+		}
 	}
 }
 
